@@ -243,3 +243,14 @@ def count_nodes(spec):
         n += count_nodes(c)
     n += len(spec.get("properties", []))
     return n
+
+
+def _good_value(dtype):
+    """A value list that a Property of this dtype accepts."""
+    if dtype is None:
+        return ["s"]
+    if dtype.endswith("-tuple"):
+        return [["x"] * int(dtype[:-6])]
+    return {"int": [4, 5], "float": [2.5], "boolean": [False], "string": ["n"], "text": ["n\nm"], "url": ["http://y"],
+            "person": ["C. D."], "date": [dt.date(2021, 2, 3)], "time": [dt.time(4, 5, 6)],
+            "datetime": [dt.datetime(2021, 2, 3, 4, 5, 6)]}.get(str(dtype), ["s"])
